@@ -39,10 +39,21 @@ def make(cfg):
                     run.eff = dict(run.eff)
                     run.eff[hpk] = nv
             run.set_grads(grads)
+            snaps = {}
+            if cfg.get("frame_checks"):
+                snaps = {i: run.snapshot_param(i) for i, g in enumerate(grads) if g is None}
+                k_before = list(run.k)
             e = H.guarded_step(run)
             if e is not None:
                 symx.prove(f"step() does not raise ({type(e).__name__}: {str(e)[:80]})", False, run._sig("step-raised"))
             run.ref_step(grads)
+            if cfg.get("frame_checks"):
+                for i, sn in snaps.items():
+                    run.prove_unchanged(i, sn)
+                for gi, idxs in enumerate(run.groups):
+                    if all(grads[i] is None for i in idxs):
+                        symx.prove(f"group {gi} without any gradient keeps its step counter", run.k[gi] == k_before[gi], run._sig("step-counter"))
+                run.masked_lists_aligned()
             run.compare_state()
             run.compare_params()
             if cfg.get("rebase") and k < T:
